@@ -235,3 +235,23 @@ def with_yield():
 async def with_await():
     with await a as b, await c: pass
     async with await a as b, (await c) as d: pass
+
+# single targets wrapped in redundant parentheses
+for (tx) in y: pass
+for ((ta, tb)) in y: pass
+for (tx.y) in z: pass
+for (tx[0]) in z: pass
+[1 for (cx) in y]
+{1 for ((ca, cb)) in y}
+(px) = 1
+(px), (py) = 1, 2
+((px)) = ((1))
+(px.a) = (px[0]) = 2
+del (px)
+del (px), (py.a)
+with a as (wb): pass
+with a as (wb), c as (wd.e): pass
+async def paren_targets():
+    async for (ax) in y: pass
+    async with a as (ab): pass
+    [1 async for (ax) in y]
